@@ -170,13 +170,36 @@ theorem compareAttr_eq (E : Env) (c : Cmp) (cv : CV) (x : Value) :
     compareAttr E c cv x = compareValue E c cv x := by
   cases x <;> cases cv <;> rfl
 
-theorem compare_refines (E : Env) (f : Field) (c : Cmp) (cv : CV) (hdev : isTagField f = false) :
+/-- comparing the values of the elements `key:value` whose key is the tag = comparing `tagValues` -/
+theorem any_tagCompare (E : Env) (t : Str) (p : Bytes → Bool) : (l : List Value) →
+    l.any (fun v => match splitColon (stringValue E v) with
+      | some (key, lhs) => key == utf8 t && p lhs
+      | none => false) =
+    (l.filterMap fun x =>
+      match splitColon (stringValue E x) with
+      | some (k, v) => if k = utf8 t then some v else none
+      | none => none).any p
+  | [] => rfl
+  | x :: l => by
+    rw [List.any_cons, List.filterMap_cons, any_tagCompare E t p l]
+    cases hs : splitColon (stringValue E x) with
+    | none => simp
+    | some kv =>
+      obtain ⟨k, v⟩ := kv
+      by_cases hk : k = utf8 t <;> simp [hk]
+
+theorem compare_refines (E : Env) (f : Field) (c : Cmp) (cv : CV) :
     FieldRefines (filterCompare E f c cv) f (compareRef E f c cv) := by
   unfold filterCompare
   apply fieldRefines_withField
   intro p hp e
   cases f with
-  | tag t => simp [isTagField] at hdev
+  | tag t =>
+    rw [lookupField_tag] at hp
+    cases hp
+    simp only [compareRef, tagValues]
+    rw [resolve_onArray]
+    exact any_tagCompare E t _ (tagElems e)
   | reserved r =>
     simp only [compareRef, valueAt_of_lookup hp, resolveValue_apply]
     cases e.get p <;> rfl
@@ -188,7 +211,6 @@ theorem compare_refines (E : Env) (f : Field) (c : Cmp) (cv : CV) (hdev : isTagF
     cases e.get p with
     | none => rfl
     | some x => exact compareAttr_eq E c cv x
-
 
 /-! ### ranges -/
 
@@ -255,7 +277,6 @@ theorem rangeRef_not_both (E : Env) (f : Field) (lo : CV) (li : Bool) (hi : CV) 
   cases lo <;> cases hi <;> first | rfl | exact absurd ⟨rfl, rfl⟩ h
 
 theorem range_refines (E : Env) (f : Field) (lo : CV) (li : Bool) (hi : CV) (ui : Bool)
-    (hT : isTagField f = false ∨ (lo = .unbounded ∧ hi = .unbounded))
     (hR : isTagsReserved f = false ∨ ¬ (lo = .unbounded ∧ hi = .unbounded)) :
     FieldRefines (filterRange E f lo li hi ui) f (rangeRef E f lo li hi ui) := by
   by_cases h1 : lo = .unbounded
@@ -268,26 +289,18 @@ theorem range_refines (E : Env) (f : Field) (lo : CV) (li : Bool) (hi : CV) (ui 
       rw [filterRange_unbounded]
       exact (exists_refines E f hr).congr (fun e => rfl)
     · subst h1
-      have hf : isTagField f = false := by
-        cases hT with
-        | inl h => exact h
-        | inr h => exact absurd h.2 h2
       rw [filterRange_lower_unbounded E f li hi ui h2]
-      exact (compare_refines E f (upperOp ui) hi hf).congr (fun e => by
+      exact (compare_refines E f (upperOp ui) hi).congr (fun e => by
         rw [rangeRef_not_both E f .unbounded li hi ui e (fun h => h2 h.2), boundRef_bounded E f _ hi e h2]
         simp [boundRef])
-  · have hf : isTagField f = false := by
-      cases hT with
-      | inl h => exact h
-      | inr h => exact absurd h.1 h1
-    by_cases h2 : hi = .unbounded
+  · by_cases h2 : hi = .unbounded
     · subst h2
       rw [filterRange_upper_unbounded E f lo li ui h1]
-      exact (compare_refines E f (lowerOp li) lo hf).congr (fun e => by
+      exact (compare_refines E f (lowerOp li) lo).congr (fun e => by
         rw [rangeRef_not_both E f lo li .unbounded ui e (fun h => h1 h.1), boundRef_bounded E f _ lo e h1]
         simp [boundRef])
     · rw [filterRange_bounded E f lo li hi ui h1 h2]
-      exact (both_refines (compare_refines E f (lowerOp li) lo hf) (compare_refines E f (upperOp ui) hi hf)).congr
+      exact (both_refines (compare_refines E f (lowerOp li) lo) (compare_refines E f (upperOp ui) hi)).congr
         (fun e => by
           rw [rangeRef_not_both E f lo li hi ui e (fun h => h1 h.1), boundRef_bounded E f _ lo e h1,
             boundRef_bounded E f _ hi e h2])
